@@ -1,11 +1,11 @@
-\* thorough: three fresh signing calls, two timestamps, one key; checked exhaustively, not exported (about 1.6e6 transitions)
+\* thorough: three fresh signing calls, two keys (UpdatePrikey), one timestamp; checked exhaustively, not exported (about 1.7e6 transitions)
 SPECIFICATION Spec
 CONSTANTS
   Heights = {1, 2}
   Rounds = {0, 1}
   Blocks = {1, 2}
-  Times = {1, 2}
-  Keys = {1}
+  Times = {1}
+  Keys = {1, 2}
   FileKey = 1
   MaxSigned = 3
   WithoutSave = FALSE
